@@ -39,6 +39,9 @@ RULE = ("mint: real dispensation BeginBlocker on the real keeper/bank, block hea
         "lock of eth, lock of a token called rowan): first witnesses, the witness reaching consensus, late witnesses, duplicates while pending, conflicting amounts, and identical "
         "claims re-sent after finalisation (a third of all claims); judged per transaction (rowan created only by the claim that takes its prophecy from not-final to SUCCESS, "
         "exactly the credited amount) and after every block (supply delta = counter delta + rewards created + approved credits read back from the oracle keeper, each prophecy once). "
+        "bank parameters in the restart family: in a quarter of the blocks the bank's SendEnabled parameters are rewritten (rowan frozen by entry, by default, or enabled again); after every BeginBlock: "
+        "eco-pool delta = counter delta and the dispensation module account unchanged (tag app.beginblock.mint-reaches-eco-pool). Only this family runs the WIRED application (keepers as app.go hands them to "
+        "the modules); the keeper-level families (mint, rewards, rwedits, bridgecredit, dispmsgs) call hooks and handlers on the app's exported keepers with the plain bank keeper and cannot see wrappers introduced in app wiring. "
         "non-trivial = a block that created coins / an accepted message")
 TRUSTED_BASE = [
     "Lean 4.33.0 kernel; axioms propext, Classical.choice, Quot.sound (audited per theorem on every run)",
